@@ -124,28 +124,29 @@ func genEnv(r *Run) *Env {
 
 // GenCfg selects constructs.
 type GenCfg struct {
-	MaxDepth  int
-	MaxNodes  int
-	Loops     bool
-	Ctl       bool
-	Switch    bool
-	Ternary   bool
-	CtxSet    bool
-	Counter   bool
-	Include   bool
-	Exit      bool
-	Region    bool
-	Mods      bool
-	Letters   bool
-	Defer     bool
-	PreSuf    bool
-	Comments  bool
-	Newlines  bool
-	Helpers   bool
-	BreakN    bool
-	LazyBreak bool
+	MaxDepth    int
+	MaxNodes    int
+	Loops       bool
+	Ctl         bool
+	Switch      bool
+	Ternary     bool
+	CtxSet      bool
+	Counter     bool
+	Include     bool
+	Exit        bool
+	Region      bool
+	Mods        bool
+	Letters     bool
+	Defer       bool
+	PreSuf      bool
+	Comments    bool
+	Newlines    bool
+	Helpers     bool
+	BreakN      bool
+	LazyBreak   bool
 	BuiltinOnly bool // no harness-registered modifiers / helpers (they allocate)
 	NoRaw       bool // no |raw prints (values that bypass the bound tags)
+	NoCross     bool // no crossed regions (a wrapper region around the template must stay balanced)
 	NoIfOK      bool // no if-ok nodes (the helper vok is harness-registered and allocates)
 }
 
@@ -407,7 +408,12 @@ func (g *gen) block(depth int) []TNode {
 	n := 1 + g.r.Rng.Intn(4)
 	var out []TNode
 	for i := 0; i < n && g.nodes < g.cfg.MaxNodes; i++ {
-		out = append(out, g.node(depth))
+		nd := g.node(depth)
+		if m, ok := nd.(Multi); ok {
+			out = append(out, m...)
+		} else {
+			out = append(out, nd)
+		}
 	}
 	return out
 }
@@ -471,11 +477,22 @@ func (g *gen) node(depth int) TNode {
 				return Exit{}
 			}
 		case 14:
+			if c.Region && !c.NoCross && g.r.Rng.Intn(5) == 0 {
+				// two regions crossing each other; the text after the foreign end tag is still inside the second one
+				kinds := []string{"jsonquote", "htmlescape", "urlencode"}
+				a := kinds[g.r.Rng.Intn(3)]
+				b := kinds[g.r.Rng.Intn(3)]
+				return Multi{RegionTag{Kind: a}, Text{g.text()}, RegionTag{Kind: b}, g.print(), Text{g.text()}, RegionTag{Kind: a, End: true},
+					Text{g.text()}, g.print(), RegionTag{Kind: b, End: true}, Text{g.text()}}
+			}
 			if c.Region && depth < c.MaxDepth {
 				return Region{Kind: pick(g.r, []string{"jsonquote", "htmlescape", "urlencode"}), Body: g.block(depth + 1)}
 			}
 		case 15:
 			if c.Comments {
+				if c.Newlines && g.r.Rng.Intn(3) == 0 {
+					return Comment{" note\n\t over " + strconv.Itoa(g.r.Rng.Intn(9)) + "\nlines "}
+				}
 				return Comment{" note " + strconv.Itoa(g.r.Rng.Intn(9)) + " "}
 			}
 			if c.Ternary {
